@@ -1,10 +1,546 @@
-//! C36 — not built yet.
+//! C36 RTR client metrics stay consistent under concurrent connections.
+//!
+//! Real threads execute exactly what `RtrStream::new` / `Drop for RtrStream` do with the metrics
+//! (`get_client(addr)`, `update(inc_current_connections)`, byte counting, `update(dec_…)`) under a
+//! harness-owned schedule over the yield points inside `RtrPerAddrMetrics::get` and the try-lock of
+//! its mutex (see `sched.rs`). Sub-checks: `dfs` (all schedules of small programs), `sampled`
+//! (generated programs + generated schedules), `stress` (uncontrolled 16-thread rounds, best effort),
+//! `e2e` (real `rtr_listener`, real TCP clients from 127.0.0.1–127.0.0.4).
+
+use std::collections::{BTreeMap, BTreeSet};
+use std::net::IpAddr;
+use std::sync::{Arc, Mutex};
+
+use proptest::prelude::*;
+use routinator::metrics::{RtrClientMetrics, RtrServerMetrics};
+use serde::{Deserialize, Serialize};
 
 use crate::core::*;
+use crate::sched::{self, BytesChooser, Chooser, Dfs, Event, Job};
 
-pub const IMPLEMENTED: bool = false;
+/// Address pool, deliberately not in sorted order and mixing families.
+pub const ADDRS: [&str; 4] = ["10.0.0.2", "10.0.0.1", "::1", "10.0.0.3"];
 
-pub fn run(_ctx: &Ctx, _rep: &mut Report, _replay: Option<&serde_json::Value>) {
-    eprintln!("C36: check not implemented");
-    std::process::exit(2);
+fn addr(i: u8) -> IpAddr {
+    ADDRS[(i as usize) % ADDRS.len()].parse().unwrap()
 }
+
+#[derive(Serialize, Deserialize, Clone, Debug, PartialEq, Eq, Hash)]
+pub enum Op {
+    /// A client connects from address index.
+    Open(u8),
+    /// The oldest still open connection of this thread closes (no-op if none).
+    Close,
+}
+
+#[derive(Serialize, Deserialize, Clone, Debug)]
+pub struct Case {
+    /// Addresses that connected (and stayed open) before the concurrent phase.
+    pub pre: Vec<u8>,
+    pub threads: Vec<Vec<Op>>,
+    /// Schedule: choice bytes for `sched::BytesChooser`.
+    pub choices: Vec<u8>,
+}
+
+struct World {
+    metrics: Arc<RtrServerMetrics>,
+    open: Arc<Mutex<Vec<(u8, RtrClientMetrics)>>>,
+}
+
+/// Exactly the metric operations of `RtrStream::new` (src/rtr.rs:209-210) plus one byte count.
+fn connect(metrics: &RtrServerMetrics, a: u8) -> RtrClientMetrics {
+    let h = metrics.get_client(addr(a));
+    h.update(|m| m.inc_current_connections());
+    h.update(|m| m.inc_bytes_read(1));
+    h
+}
+
+/// `Drop for RtrStream`.
+fn disconnect(h: RtrClientMetrics) {
+    h.update(|m| m.dec_current_connections());
+}
+
+fn jobs_for(case: &Case, w: &World) -> Vec<Job> {
+    case.threads
+        .iter()
+        .map(|ops| {
+            let ops = ops.clone();
+            let metrics = w.metrics.clone();
+            let open = w.open.clone();
+            Box::new(move || {
+                let mut mine: std::collections::VecDeque<(u8, RtrClientMetrics)> = Default::default();
+                for op in ops {
+                    match op {
+                        Op::Open(a) => {
+                            sched::note(format!("open {}", a));
+                            let h = connect(&metrics, a);
+                            sched::note(format!("opened {}", a));
+                            mine.push_back((a, h));
+                        }
+                        Op::Close => {
+                            if let Some((a, h)) = mine.pop_front() {
+                                disconnect(h);
+                                sched::note(format!("closed {}", a));
+                            }
+                        }
+                    }
+                }
+                open.lock().unwrap().extend(mine);
+            }) as Job
+        })
+        .collect()
+}
+
+/// Invariant checked by the scheduler whenever all participants are parked.
+fn step_invariant(metrics: &RtrServerMetrics, seen: &mut BTreeSet<IpAddr>, allowed: &BTreeSet<IpAddr>) -> Result<(), String> {
+    let Some(list) = metrics.clients() else { return Err("unknown|clients() is None although per-client metrics are enabled".into()) };
+    for w in list.windows(2) {
+        if w[0].0 >= w[1].0 {
+            return Err(format!("unsorted-or-duplicate|client list not strictly sorted: {:?}", list.iter().map(|x| x.0).collect::<Vec<_>>()));
+        }
+    }
+    let now: BTreeSet<IpAddr> = list.iter().map(|x| x.0).collect();
+    if let Some(lost) = seen.iter().find(|a| !now.contains(*a)) {
+        return Err(format!("address-lost|address {} was listed earlier but is gone: {:?}", lost, now));
+    }
+    if let Some(x) = now.iter().find(|a| !allowed.contains(*a)) {
+        return Err(format!("unknown-address|address {} listed but never connected", x));
+    }
+    *seen = now;
+    Ok(())
+}
+
+/// Is the case non-trivial: two first-connections from the same new address interleaved, i.e. two
+/// opens of one address by different threads that both left the fast path and overlap in time.
+fn interleaved_first_connections(trace: &[Event]) -> bool {
+    // (tid, addr, start idx, end idx, missed fast path)
+    let mut spans: Vec<(usize, String, usize, usize, bool)> = Vec::new();
+    let mut cur: BTreeMap<usize, (String, usize, bool)> = BTreeMap::new();
+    for (i, ev) in trace.iter().enumerate() {
+        match ev {
+            Event::Note { tid, text } => {
+                if let Some(a) = text.strip_prefix("open ") {
+                    cur.insert(*tid, (a.to_string(), i, false));
+                } else if text.starts_with("opened ") {
+                    if let Some((a, s, m)) = cur.remove(tid) {
+                        spans.push((*tid, a, s, i, m));
+                    }
+                }
+            }
+            Event::Step { tid, label } => {
+                if *label == "rtr_metrics.before_lock" {
+                    if let Some(c) = cur.get_mut(tid) {
+                        c.2 = true;
+                    }
+                }
+            }
+            Event::Done { .. } => {}
+        }
+    }
+    for (i, a) in spans.iter().enumerate() {
+        for b in spans.iter().skip(i + 1) {
+            if a.0 != b.0 && a.1 == b.1 && a.4 && b.4 && a.2 < b.3 && b.2 < a.3 {
+                return true;
+            }
+        }
+    }
+    false
+}
+
+fn fail_from(msg: String) -> Verdict {
+    let (k, m) = msg.split_once('|').map(|(a, b)| (a.to_string(), b.to_string())).unwrap_or(("invariant".into(), msg.clone()));
+    Verdict::fail(format!("C36/{}", k), m)
+}
+
+/// Final-state oracle. `open` = connections still open.
+fn final_oracle(metrics: &RtrServerMetrics, opened: &BTreeMap<IpAddr, u64>, open: Vec<(u8, RtrClientMetrics)>) -> Result<(), String> {
+    let list = metrics.clients().ok_or("unknown|clients() is None")?;
+    let listed: Vec<IpAddr> = list.iter().map(|x| x.0).collect();
+    let expected: Vec<IpAddr> = opened.keys().copied().collect();
+    if listed != expected {
+        let key = if listed.len() != listed.iter().collect::<BTreeSet<_>>().len() || listed.windows(2).any(|w| w[0] >= w[1]) {
+            "unsorted-or-duplicate"
+        } else if expected.iter().any(|a| !listed.contains(a)) {
+            "address-lost"
+        } else {
+            "unknown-address"
+        };
+        return Err(format!("{}|final client list {:?}, expected exactly {:?}", key, listed, expected));
+    }
+    let mut still: BTreeMap<IpAddr, usize> = BTreeMap::new();
+    for (a, _) in &open {
+        *still.entry(addr(*a)).or_default() += 1;
+    }
+    for (a, data) in list.iter() {
+        let n = opened[a];
+        if data.bytes_read() != n {
+            return Err(format!("handle-not-aliased|{} connections from {} counted a byte each through their handles but the listed entry shows {}", n, a, data.bytes_read()));
+        }
+        let s = still.get(a).copied().unwrap_or(0);
+        if data.current_connections() != s {
+            return Err(format!("open-count-mismatch|{}: {} connections open but entry shows {}", a, s, data.current_connections()));
+        }
+    }
+    let total: u64 = opened.values().sum();
+    let g = metrics.global();
+    if g.bytes_read() != total || g.current_connections() != open.len() {
+        return Err(format!("global-mismatch|global shows bytes_read={} current={} expected {} / {}", g.bytes_read(), g.current_connections(), total, open.len()));
+    }
+    // every connection closes
+    for (_, h) in open {
+        disconnect(h);
+    }
+    let list = metrics.clients().ok_or("unknown|clients() is None")?;
+    if let Some((a, d)) = list.iter().find(|x| x.1.current_connections() != 0) {
+        return Err(format!("nonzero-after-close|{} shows {} open connections after all closed", a, d.current_connections()));
+    }
+    if metrics.global().current_connections() != 0 {
+        return Err(format!("nonzero-after-close|global shows {} open connections after all closed", metrics.global().current_connections()));
+    }
+    Ok(())
+}
+
+fn opened_counts(case: &Case) -> BTreeMap<IpAddr, u64> {
+    let mut m: BTreeMap<IpAddr, u64> = BTreeMap::new();
+    for a in &case.pre {
+        *m.entry(addr(*a)).or_default() += 1;
+    }
+    for t in &case.threads {
+        for op in t {
+            if let Op::Open(a) = op {
+                *m.entry(addr(*a)).or_default() += 1;
+            }
+        }
+    }
+    m
+}
+
+/// Runs one program under one schedule.
+fn execute(case: &Case, chooser: &mut dyn Chooser, info: &mut CaseInfo) -> Verdict {
+    let w = World { metrics: Arc::new(RtrServerMetrics::new(true)), open: Default::default() };
+    for a in &case.pre {
+        let h = connect(&w.metrics, *a);
+        w.open.lock().unwrap().push((*a, h));
+    }
+    let opened = opened_counts(case);
+    let allowed: BTreeSet<IpAddr> = opened.keys().copied().collect();
+    let mut seen = BTreeSet::new();
+    let m2 = w.metrics.clone();
+    let out = sched::run(jobs_for(case, &w), chooser, &mut |_trace| step_invariant(&m2, &mut seen, &allowed));
+    let nt = interleaved_first_connections(&out.trace);
+    info.nt(nt);
+    if nt {
+        info.class("interleaved_first_connections");
+    }
+    let new_addrs = allowed.len() - case.pre.iter().map(|a| addr(*a)).collect::<BTreeSet<_>>().len();
+    info.class(format!("threads={} new_addrs={}", case.threads.len(), new_addrs.min(3)));
+    if out.trace.iter().any(|e| matches!(e, Event::Step { label: "sync.mutex.lock", .. })) {
+        info.class("slow_path");
+    }
+    if let Some(e) = out.observer_error {
+        return fail_from(e);
+    }
+    if let Some((tid, msg)) = out.panics.first() {
+        return Verdict::fail("C36/thread-panic", format!("thread {} panicked: {}", tid, msg));
+    }
+    if out.deadlock {
+        return Verdict::fail("C36/deadlock", format!("all threads blocked on locks; trace tail {:?}", out.trace.iter().rev().take(8).collect::<Vec<_>>()));
+    }
+    if out.diverged {
+        return Verdict::Dropped("schedule_step_bound".into());
+    }
+    let open = std::mem::take(&mut *w.open.lock().unwrap());
+    match final_oracle(&w.metrics, &opened, open) {
+        Ok(()) => Verdict::Pass,
+        Err(e) => fail_from(e),
+    }
+}
+
+fn prop_sampled(case: &Case, info: &mut CaseInfo) -> Verdict {
+    let mut ch = BytesChooser::new(&case.choices);
+    execute(case, &mut ch, info)
+}
+
+fn case_strategy() -> impl Strategy<Value = Case> {
+    // number of distinct addresses in play 1..=3, threads 2..=4, ops 1..=4 per thread
+    (1u8..=3, 2usize..=4).prop_flat_map(|(naddr, nthreads)| {
+        let op = prop_oneof![3 => (0..naddr).prop_map(Op::Open), 1 => Just(Op::Close)];
+        (
+            prop::collection::vec(0..naddr.max(1) + 1, 0..=2),
+            prop::collection::vec(prop::collection::vec(op, 1..=4), nthreads..=nthreads),
+            prop::collection::vec(any::<u8>(), 0..48),
+        )
+            .prop_map(|(pre, threads, choices)| Case { pre, threads, choices })
+    })
+}
+
+/// Programs whose schedule trees are enumerated completely.
+fn dfs_programs(tier: Tier) -> Vec<Case> {
+    let mut v = Vec::new();
+    let c = |pre: &[u8], threads: &[&[Op]]| Case { pre: pre.to_vec(), threads: threads.iter().map(|t| t.to_vec()).collect(), choices: vec![] };
+    use Op::*;
+    for pre in [&[][..], &[0][..], &[2][..], &[0, 2][..]] {
+        // two first connections from the same new address
+        v.push(c(pre, &[&[Open(1)], &[Open(1)]]));
+        // different new addresses (insert positions differ)
+        v.push(c(pre, &[&[Open(1)], &[Open(3)]]));
+        // with closes and a second connection
+        v.push(c(pre, &[&[Open(1), Close], &[Open(1), Close]]));
+        if tier == Tier::Thorough || pre.len() != 1 {
+            v.push(c(pre, &[&[Open(1), Close, Open(3)], &[Open(3), Open(1)]]));
+        }
+        // existing + new
+        v.push(c(pre, &[&[Open(0)], &[Open(1)]]));
+    }
+    // three and four threads: the trees are too large for the quick tier (covered there by `sampled`)
+    if tier == Tier::Thorough {
+        v.push(c(&[], &[&[Open(1)], &[Open(1)], &[Open(1)]]));
+        v.push(c(&[0], &[&[Open(1)], &[Open(3)], &[Open(1)]]));
+        v.push(c(&[], &[&[Open(1), Close], &[Open(1), Close], &[Open(3)]]));
+        v.push(c(&[2], &[&[Open(1)], &[Open(3)], &[Open(0)], &[Open(1)]]));
+    }
+    v
+}
+
+fn run_dfs(ctx: &Ctx, rep: &mut Report) {
+    let cap = ctx.tier.pick(3_000usize, 100_000);
+    let mut total = 0usize;
+    let mut all_exhausted = true;
+    let mut per_program = Vec::new();
+    for prog in dfs_programs(ctx.tier) {
+        let mut dfs = Dfs::new();
+        let mut n = 0usize;
+        let mut exhausted = false;
+        loop {
+            let mut info = CaseInfo::default();
+            let verdict = execute(&prog, &mut dfs, &mut info);
+            n += 1;
+            let case = Case { choices: dfs.choices(), ..prog.clone() };
+            let tagged = Tagged { sub: "sampled".to_string(), case };
+            rep.record(ctx, &tagged, &info, &verdict);
+            if rep.violated() {
+                return;
+            }
+            if !dfs.advance() {
+                exhausted = true;
+                break;
+            }
+            if n >= cap {
+                break;
+            }
+        }
+        total += n;
+        all_exhausted &= exhausted;
+        per_program.push(serde_json::json!({"pre": prog.pre, "threads": prog.threads, "schedules": n, "exhausted": exhausted}));
+    }
+    rep.extra.insert("dfs_schedules".into(), serde_json::json!(total));
+    rep.extra.insert("dfs_programs".into(), serde_json::json!(per_program));
+    rep.exhaustive = Some(all_exhausted);
+}
+
+/// Uncontrolled stress: 16 threads race on a fresh registry per round (best effort, §0.7).
+fn run_stress(ctx: &Ctx, rep: &mut Report) {
+    let rounds = ctx.tier.pick(300usize, 5_000);
+    let nthreads = 16usize;
+    let mut bad: Option<(usize, String)> = None;
+    for round in 0..rounds {
+        let metrics = Arc::new(RtrServerMetrics::new(true));
+        let barrier = Arc::new(std::sync::Barrier::new(nthreads));
+        let open: Arc<Mutex<Vec<(u8, RtrClientMetrics)>>> = Default::default();
+        let hs: Vec<_> = (0..nthreads)
+            .map(|t| {
+                let (m, b, o) = (metrics.clone(), barrier.clone(), open.clone());
+                std::thread::spawn(move || {
+                    b.wait();
+                    let mut mine = Vec::new();
+                    for k in 0..4u8 {
+                        let a = ((t as u8) + k + (round as u8)) % 4;
+                        mine.push((a, connect(&m, a)));
+                    }
+                    // close half
+                    let keep = mine.split_off(2);
+                    for (_, h) in mine {
+                        disconnect(h);
+                    }
+                    o.lock().unwrap().extend(keep);
+                })
+            })
+            .collect();
+        for h in hs {
+            let _ = h.join();
+        }
+        let mut opened: BTreeMap<IpAddr, u64> = BTreeMap::new();
+        for t in 0..nthreads {
+            for k in 0..4u8 {
+                *opened.entry(addr(((t as u8) + k + (round as u8)) % 4)).or_default() += 1;
+            }
+        }
+        let open = std::mem::take(&mut *open.lock().unwrap());
+        if let Err(e) = final_oracle(&metrics, &opened, open) {
+            bad = Some((round, e));
+            break;
+        }
+    }
+    rep.extra.insert("stress_rounds".into(), serde_json::json!(rounds));
+    if let Some((round, e)) = bad {
+        let (k, m) = e.split_once('|').map(|(a, b)| (a.to_string(), b.to_string())).unwrap_or(("invariant".into(), e.clone()));
+        let case = Tagged { sub: "stress".to_string(), case: serde_json::json!({"round": round}) };
+        rep.failure(ctx, &case, &format!("C36/stress/{}", k), &m);
+    }
+}
+
+pub fn run(ctx: &Ctx, rep: &mut Report, replay: Option<&serde_json::Value>) {
+    rep.rule("threads performing the metric operations of RtrStream::new/Drop (get_client, inc, byte count, dec) for addresses from a pool of 4 under harness-owned schedules over rtr_metrics.{before_lock,locked,before_store} and the registry mutex's try-lock: (dfs) every schedule of 18 two-thread programs (same/different/new/existing addresses, with closes and second connections; thorough adds 3-4 thread programs, capped at 100 000 schedules each), (sampled) generated programs of 2-4 threads x 1-4 ops with generated choice strings, (stress) uncontrolled 16-thread rounds, (e2e) real rtr_listener with TCP clients from 127.0.0.1-127.0.0.4; invariant checked at every scheduling step (list strictly sorted, no address disappears) and at the end (exactly the connected addresses, per-entry byte counts equal the number of connections through any handle, open counts exact, zero after all closed); non-trivial = two first connections from the same new address by different threads both leave the fast path and overlap; distinct by program+schedule");
+    rep.assume("the yield points cover every lock acquisition and the load/lock/re-load/store steps of RtrPerAddrMetrics::get; interleavings inside regions without yield points (atomic counter updates) are only exercised by the uncontrolled stress rounds");
+    rep.assume("one controlled thread runs at a time, i.e. sequentially consistent executions only (no weak-memory effects)");
+    if let Some(v) = replay {
+        let t: Tagged<serde_json::Value> = serde_json::from_value(v.clone()).expect("replay");
+        match t.sub.as_str() {
+            "sampled" => run_case(ctx, rep, "sampled", &serde_json::from_value::<Case>(t.case).expect("case"), prop_sampled),
+            "e2e" => run_case(ctx, rep, "e2e", &serde_json::from_value::<E2eCase>(t.case).expect("case"), prop_e2e),
+            "stress" => run_stress(ctx, rep),
+            other => panic!("unknown sub {}", other),
+        }
+        return;
+    }
+    run_dfs(ctx, rep);
+    if rep.violated() {
+        return;
+    }
+    run_prop(ctx, rep, "sampled", ctx.tier.pick(4_000, 120_000), case_strategy(), prop_sampled);
+    if rep.violated() {
+        return;
+    }
+    run_stress(ctx, rep);
+    if rep.violated() {
+        return;
+    }
+    run_prop(ctx, rep, "e2e", ctx.tier.pick(60, 1_000), e2e_strategy(), prop_e2e);
+}
+
+//------------ end-to-end variant ------------------------------------------------------------------
+
+#[derive(Serialize, Deserialize, Clone, Debug)]
+pub struct E2eCase {
+    /// Per client: (source address 127.0.0.<1+x>, listener index 0/1, batch).
+    /// Clients of one batch connect concurrently; all stay open until every batch connected.
+    pub clients: Vec<(u8, u8, u8)>,
+}
+
+fn e2e_strategy() -> impl Strategy<Value = E2eCase> {
+    prop::collection::vec((0u8..4, 0u8..2, 0u8..3), 6..=20).prop_map(|clients| E2eCase { clients })
+}
+
+fn prop_e2e(case: &E2eCase, info: &mut CaseInfo) -> Verdict {
+    use crate::rtrnet::*;
+    let srv = match RtrTestServer::start(2, Some(std::time::Duration::from_secs(60)), true) {
+        Ok(s) => s,
+        Err(e) => return Verdict::Dropped(format!("listener_start:{}", e)),
+    };
+    let metrics = srv.metrics.clone();
+    let ports = srv.ports.clone();
+    let t = std::time::Duration::from_secs(5);
+    let clients = case.clients.clone();
+    let res: Result<(BTreeMap<IpAddr, u64>, usize, Vec<RtrClient>), String> = srv.rt.block_on(async move {
+        let mut open = Vec::new();
+        let mut per: BTreeMap<IpAddr, u64> = BTreeMap::new();
+        let mut concurrent_same = 0usize;
+        for batch in 0..3u8 {
+            let members: Vec<_> = clients.iter().filter(|c| c.2 == batch).cloned().collect();
+            let mut firsts: BTreeMap<u8, usize> = BTreeMap::new();
+            for m in &members {
+                let ip: IpAddr = format!("127.0.0.{}", 1 + m.0).parse().unwrap();
+                if !per.contains_key(&ip) {
+                    *firsts.entry(m.0).or_default() += 1;
+                }
+            }
+            concurrent_same += firsts.values().filter(|n| **n >= 2).count();
+            let futs = members.iter().map(|m| {
+                let src: IpAddr = format!("127.0.0.{}", 1 + m.0).parse().unwrap();
+                let port = ports[m.1 as usize];
+                async move {
+                    let mut c = RtrClient::connect_from(src, port).await?;
+                    match c.reset_query(1, t).await {
+                        Exchange::Answered { .. } => Ok::<_, String>((src, c)),
+                        other => Err(format!("client from {} not served: {:?}", src, other)),
+                    }
+                }
+            });
+            for r in futures::future::join_all(futs).await {
+                let (src, c) = r?;
+                *per.entry(src).or_default() += 1;
+                open.push(c);
+            }
+        }
+        // all connections are open now; the caller inspects the metrics, then they close.
+        Ok((per, concurrent_same, open))
+    });
+    let (per, concurrent_same, open) = match res {
+        Ok(x) => x,
+        Err(e) => return Verdict::Dropped(format!("client_io:{}", crate::core::truncate(&e, 60))),
+    };
+    info.nt(concurrent_same > 0);
+    if concurrent_same > 0 {
+        info.class("e2e_concurrent_first_connections");
+    }
+    info.class(format!("e2e_addrs={}", per.len()));
+    let check_open = (|| -> Result<(), String> {
+        let list = metrics.clients().ok_or("unknown|clients() is None")?;
+        let listed: Vec<IpAddr> = list.iter().map(|x| x.0).collect();
+        let expected: Vec<IpAddr> = per.keys().copied().collect();
+        if listed != expected {
+            let key = if listed.windows(2).any(|w| w[0] >= w[1]) { "unsorted-or-duplicate" } else { "address-lost" };
+            return Err(format!("{}|client list {:?}, expected {:?}", key, listed, expected));
+        }
+        for (a, d) in list.iter() {
+            if d.current_connections() as u64 != per[a] {
+                return Err(format!("open-count-mismatch|{} has {} open connections, entry shows {}", a, per[a], d.current_connections()));
+            }
+            // every client sent exactly one 8-byte Reset Query and the server read it before answering
+            if d.bytes_read() != 8 * per[a] {
+                return Err(format!("handle-not-aliased|{} connections from {} sent 8 bytes each and were answered, but the listed entry counts {} bytes read", per[a], a, d.bytes_read()));
+            }
+        }
+        let total: u64 = per.values().sum();
+        if metrics.global().current_connections() as u64 != total {
+            return Err(format!("global-mismatch|{} connections open, global shows {}", total, metrics.global().current_connections()));
+        }
+        Ok(())
+    })();
+    // close everything and wait (bounded) for the server side to notice
+    {
+        let _g = srv.rt.enter();
+        drop(open);
+    }
+    if let Err(e) = check_open {
+        return fail_e2e(e);
+    }
+    let deadline = std::time::Instant::now() + std::time::Duration::from_secs(10);
+    loop {
+        let zero = metrics.global().current_connections() == 0 && metrics.clients().map(|l| l.iter().all(|x| x.1.current_connections() == 0)).unwrap_or(false);
+        if zero {
+            break;
+        }
+        if std::time::Instant::now() > deadline {
+            // bounded-wait verdict: only reported when a control connection shows the server is responsive
+            let ok = srv.rt.block_on(async {
+                match RtrClient::connect_from("127.0.0.1".parse().unwrap(), srv.ports[0]).await {
+                    Ok(mut c) => matches!(c.reset_query(1, std::time::Duration::from_secs(2)).await, Exchange::Answered { .. }),
+                    Err(_) => false,
+                }
+            });
+            if !ok {
+                return Verdict::Dropped("slow_close".into());
+            }
+            return Verdict::fail("C36/e2e/nonzero-after-close", format!("10 s after every client closed: global={} per-client={:?}", metrics.global().current_connections(), metrics.clients().map(|l| l.iter().map(|x| (x.0, x.1.current_connections())).collect::<Vec<_>>())));
+        }
+        std::thread::sleep(std::time::Duration::from_millis(5));
+    }
+    Verdict::Pass
+}
+
+fn fail_e2e(e: String) -> Verdict {
+    let (k, m) = e.split_once('|').map(|(a, b)| (a.to_string(), b.to_string())).unwrap_or(("invariant".into(), e.clone()));
+    Verdict::fail(format!("C36/e2e/{}", k), m)
+}
+
